@@ -62,6 +62,9 @@ def obligations(tier):
                      real=["src/ythread.c"], hooks=True, defs=["KIND=%d" % k, "VR_SP_EXTRA=vr_check"], unwind=4, cut_loops=SPIN, object_bits=10, backend="cadical",
                      encodes=["ABTI_ythread_callback_" + nm, "ABTI_thread_handle_request", "ABTI_pool_inc_num_blocked", "ABTI_pool_dec_num_blocked", "ABTI_pool_add_thread"],
                      bounds="one callback execution; resumption at any atomic instruction after the ULT became resumable", symbolic="whether/where the ULT is resumed elsewhere, what overwrites its frame"))
+    import importlib as _il
+    C11 = _il.import_module("props.C11")
+    o += [x for x in C11.own_obligations(tier) if x.name == "directed_thread_yield_to"]   # never switch into a unit another stream popped meanwhile: it would run on two streams
     return o
 
 MANIFEST_ENTRY = {
